@@ -4,6 +4,7 @@ package props
 
 import (
 	"bytes"
+	"crypto/sha256"
 	"crypto/x509/pkix"
 	"encoding/pem"
 	"fmt"
@@ -69,11 +70,15 @@ func c09Init() {
 	}
 	// data exactly as long as the PEM text of certificate C: a list of that signature size exists when
 	// the PEM form is appended, and the certificate must still be stored (as DER, in a list of its size)
+	// zero-length data (accepted under the X.509 type): handed over as nil and as an empty non-nil slice,
+	// which are the same value
+	c09Data["zero-length (nil)"] = nil
+	c09Data["zero-length (empty)"] = []byte{}
 	c09Data["certC-PEM"] = pem.EncodeToMemory(&pem.Block{Type: "CERTIFICATE", Bytes: cc.Raw})
 	c09Data["blob-as-long-as-certC-PEM"] = fill(len(c09Data["certC-PEM"]), 0x47)
 	c09Types = []c09Type{
 		{"SHA256", signature.CERT_SHA256_GUID, []string{"h1", "h2", "h31", "certA-DER"}},
-		{"X509", signature.CERT_X509_GUID, []string{"certA-DER", "certA-PEM", "certA-PEM-with-preamble", "certA-PEM-other-label", "certA-PEM-bundle", "certB-DER", "certC-DER", "h1", "certC-PEM", "blob-as-long-as-certC-PEM"}},
+		{"X509", signature.CERT_X509_GUID, []string{"certA-DER", "certA-PEM", "certA-PEM-with-preamble", "certA-PEM-other-label", "certA-PEM-bundle", "certB-DER", "certC-DER", "h1", "certC-PEM", "blob-as-long-as-certC-PEM", "zero-length (nil)", "zero-length (empty)"}},
 		{"SHA1", signature.CERT_SHA1_GUID, []string{"s20", "h1"}},
 		{"UNKNOWN", util.EFIGUID{Data1: 0xdeadbeef, Data2: 1, Data3: 2, Data4: [8]byte{3, 4, 5, 6, 7, 8, 9, 10}}, []string{"h1"}},
 	}
@@ -553,7 +558,7 @@ func init() {
 	hx.Register(&hx.Prop{
 		ID:    "C09",
 		Level: "model_checking",
-		Rule: "explicit-state breadth-first search over the real SignatureDatabase: states reached by replaying operation lists on fresh instances, deduplicated on the full structural dump (no abstraction); " +
+		Rule: "explicit-state breadth-first search over the real SignatureDatabase: states reached by replaying operation lists on fresh instances, deduplicated on a 128-bit hash of the full structural dump (no abstraction); " +
 			"alphabet = Append/Remove x {SHA256,X509,SHA1,unknown type} x 2 owners x data {32-byte hashes, 31-byte, 20-byte, certificate DER/PEM of equal and different lengths}, AppendList (empty list, lists built by list-level AppendBytes incl. different lengths and duplicates), AppendDatabase, encode-decode; " +
 			"every new state is also reached with encoding and all membership queries called before every step (same state required); units beside the search: weak-equality twins of stored values, one list shared by two databases, a decoded database whose source buffer / slice the caller reuses; " +
 			"per transition the step is judged against the ordered-entry view (result class; exactly one entry added/removed; others keep content and order; error => unchanged), and in every state: all membership queries over the universe, no duplicate in a list, size equations, reference decoder accepts Bytes(), decode(encode)==state",
@@ -568,7 +573,8 @@ func init() {
 			}
 			return append(u, "shared-list", "source-reused", "weakeq#SHA256#h1", "weakeq#X509#certA-DER", "weakeq#X509#certB-DER")
 		},
-		Run: c09Run,
+		Run:        c09Run,
+		SearchUnit: func(unit string) bool { return strings.HasPrefix(unit, "bfs#") },
 		Bound: func(tier string) map[string]any {
 			return map[string]any{"depth": c09Depth(tier), "operations": len(c09Ops()), "initial_states": len(c09Inits())}
 		},
@@ -660,11 +666,12 @@ func c09Run(c *hx.Ctx, tier, unit string) {
 					continue // do not explore beyond a violating step
 				}
 				k := c09Key(db)
-				if seen[k] {
+				kh := sha256.Sum256([]byte(k))
+				if seen[string(kh[:16])] {
 					c.Outcome("revisit")
 					continue
 				}
-				seen[k] = true
+				seen[string(kh[:16])] = true
 				c.Count("states", 1)
 				c.Nontrivial([]byte(k))
 				if iv, d := c09Invariants(db); iv != "" {
